@@ -45,7 +45,7 @@ def jobs(pid, tier):
     if pid == 'C08':
         if q:
             return [vrt('C07', [r'mx2_.*_r1', r'mxpool_.*', r'mxown.*', r'mxcb.*'], bound=2, workers=2),
-                    vrt('C07', [r'mx3_f[012]_r[0123]'], bound=2, workers=8)]
+                    vrt('C07', [r'mx3_f[012]_r[0123]', r'mx4_f0_r0'], bound=2, workers=8)]
         return [vrt('C07', [r'mx2_.*_r1'], unbounded=True, workers=4),
                 vrt('C07', [r'mxpool_.*', r'mxown.*', r'mxcb.*'], bound=3, workers=4),
                 vrt('C07', [r'mx3_.*'], bound=3, workers=16),
